@@ -157,3 +157,22 @@ Example C01_example :
   eval_expr cx0 10 [[]] (compile (XBin BMul (XBin BDiv (XInt 8) (XInt 2)) (XInt 2))) = Ok (VInt 8) /\
   lits_ok (XBin BAdd (XFloat 15 1) (XInt 3)).
 Proof. exact sem_example. Qed.
+
+(* ---- from the source BYTES of {{ c }} (Proofs/LexRound.v reads the lexer backwards) *)
+From TW Require Import LexRound.
+
+Theorem C01_from_source_bytes_to_value its c e lb rb eof (en : env) fs :
+  source_ok its = true -> place (spell its) 0 its = lb :: flat c ++ [rb; eof] ->
+  wf c -> den c e -> lits_ok e -> (size e <= fs)%nat ->
+  ttype lb = T_LBRACES -> ttype rb = T_RBRACES -> ttype eof = T_EOF ->
+  parse_source (spell its) = ParsedOk (mkProgram [SExpr (compile e)] None [] [] []) /\
+  exists n, forall fm, (n <= fm)%nat ->
+    meets (eval_expr cx0 fm en (compile e)) (sem model_call_spec fs (flat_env en) e).
+Proof. exact (source_expression_evaluates its c e lb rb eof en fs). Qed.
+Print Assumptions C01_from_source_bytes_to_value.
+
+Example C01_sources_in_the_domain :
+  forallb (fun s => in_domain (bs s))
+    ["{{ (8 / 2 * 2) - -x.n[0] ? a.f(1, 2) : [3] }}"; "{{ 8 / 2 * 2 - x }}"; "{{ 1.5e+1 }}";
+     "{{ !true == false }}"; "{{ a<=b }}{{ a>=b }}{{ a!=b }}{{ i++ }}{{ i-- }}{{ -1 - -1 }}"]%string = true.
+Proof. vm_compute. reflexivity. Qed.
